@@ -1,10 +1,10 @@
 package main
 
 import (
-	"hash/fnv"
 	"encoding/hex"
 	"encoding/json"
 	"fmt"
+	"hash/fnv"
 	"net/url"
 	"os"
 	"path/filepath"
